@@ -17,6 +17,9 @@ def main():
     sh("git -C /repo worktree remove --force " + wt); shutil.rmtree(wt, ignore_errors=True)
     sh("git -C /repo worktree add --detach %s HEAD" % wt)
     patch = os.path.join(V, "seeded", seed, "patch.diff")
+    rb = os.path.join(V, "seeded", seed, "patch_rebased.diff")   # same change ported onto later fix commits
+    if os.path.exists(rb):
+        patch = rb
     rc, out = sh("git apply %s || git apply -3 %s" % (patch, patch), cwd=wt)
     res = {"seed": seed, "property": pid, "tier": tier, "repo_head": sh("git -C /repo rev-parse --short HEAD")[1].strip(),
            "patch_applies": rc == 0}
